@@ -90,6 +90,19 @@ def theorem_names(path):
     return names
 
 
+def enclosing_decl(path, line):
+    """`theorem foo` / `def foo` / `example` enclosing the given line of a Lean file"""
+    try:
+        lines = open(path).read().splitlines()
+    except OSError:
+        return None
+    for i in range(min(line, len(lines)) - 1, -1, -1):
+        m = re.match(r"\s*(?:private\s+|protected\s+)?(theorem|def|example|instance|abbrev|structure|inductive)\b\s*([^\s:({\[]*)", lines[i])
+        if m:
+            return (m.group(1) + " " + m.group(2)).strip()
+    return None
+
+
 def module_files(module):
     """source files of a module and of everything of ours it imports (transitively)"""
     seen, todo = [], [module]
@@ -118,9 +131,17 @@ def prove(pid, spec, thorough):
     rc, out = sh(["lake", "build"] + modules + ["driver"], cwd=LEAN, timeout=3000)
     res["log"] = out[-6000:]
     if rc != 0:
+        i = out.find("error:")
+        res["log"] = out[max(0, i - 300):][:6000] if i >= 0 else out[-6000:]
         errs = re.findall(r"error: ([^\n]*)", out)
         res["failures"] = [f"lake build {module} failed: " + "; ".join(errs[:6])]
-        # which theorems still check is unknown when the module does not build
+        # name the declarations that no longer check (error positions -> enclosing declaration)
+        for fpath, line in sorted(set(re.findall(r"error: (\S+?\.lean):(\d+):\d+", out)))[:12]:
+            full = fpath if os.path.isabs(fpath) else os.path.join(LEAN, fpath)
+            decl = enclosing_decl(full, int(line))
+            if decl:
+                res["failures"].append(f"{os.path.relpath(full, ROOT)}:{line}: {decl} no longer checks")
+        # which of the other theorems still check is unknown when the module does not build
         return res
     # forbidden tokens in every source file the property depends on
     for f in sum([module_files(mod) for mod in modules], []) + module_files("Main"):
@@ -175,9 +196,9 @@ def split_cases(lines):
     return cases
 
 
-def correspond(pid, spec, tier, seed, release=False):
+def correspond(pid, spec, tier, seed, release=False, tag=""):
     """run harness + driver; returns dict with meta, diffs, crash info"""
-    rundir = os.path.join(RUNS, f"{pid}-{tier}" + ("-release" if release else ""))
+    rundir = os.path.join(RUNS, f"{pid}-{tier}" + ("-release" if release else "") + tag)
     os.makedirs(rundir, exist_ok=True)
     for f in ("ops.txt", "impl.txt", "model.txt", "meta.json", "oracle.txt"):
         try: os.remove(os.path.join(rundir, f))
@@ -338,9 +359,40 @@ def run_check(pid, tier, seed):
             broken.append("correspondence harness does not build against the current /repo")
         if diffs:
             broken.append(f"correspondence impl-vs-model differs ({sum(cr.get('ndiffs', 0) for _, cr in corr_runs)} lines)")
-        if broken and not (crashed and known_hits):
+        searched = [f"{tier} generator, seed {seed}"]
+        if broken and not (crashed and known_hits) and hb_ok:
+            # search for a concrete failing input beyond this tier's own run: the thorough generator, further seeds
+            plan = ([("thorough", seed)] if tier == "quick" else []) + [(tier, seed + 1), (tier, seed + 2)]
+            for t, sd in plan:
+                if time.time() - t_start > 900:
+                    break
+                cr = correspond(pid, spec, t, sd, False, tag="-search")
+                searched.append(f"{t} generator, seed {sd}")
+                fs = [f for f in (cr["meta"] or {}).get("oracle_failures", []) if not match_known(pid, f, known)]
+                if cr["crashed"] and not fs:
+                    text = " ".join(cr["crashed"]["ops"][-1:]) + " " + cr["crashed"]["tail"]
+                    if not match_known(pid, text, known):
+                        payload = {"property": pid, "kind": "implementation-crashed", "profile": "debug", "tier": t, "seed": sd,
+                                   "found_by": "search after a broken obligation", "no_longer_checks": broken, **cr["crashed"]}
+                        violations.append((write_replay(pid, "crash", payload), ""))
+                        break
+                if fs:
+                    f = fs[0]
+                    m = re.match(r"case (\d+):", f)
+                    header = None
+                    if m and os.path.exists(os.path.join(cr["rundir"], "ops.txt")):
+                        for h, _ in split_cases(open(os.path.join(cr["rundir"], "ops.txt")).read().splitlines()):
+                            if h.startswith(f"# case {m.group(1)} "):
+                                header = h
+                    payload = {"property": pid, "kind": "oracle-failure", "profile": "debug", "tier": t, "seed": sd,
+                               "found_by": "search after a broken obligation", "no_longer_checks": broken,
+                               "what": f, "case": header, **(case_text(cr["rundir"], header) if header else {})}
+                    violations.append((write_replay(pid, hashlib.sha1(f.encode()).hexdigest()[:10], payload), ""))
+                    oracle_failures.append(("debug", cr, f))
+                    break
+        if broken and not violations and not (crashed and known_hits):
             payload = {"property": pid, "kind": "obligation-broken", "tier": tier, "seed": seed,
-                       "no_longer_checks": broken, "searched": "corpus + the property's generator at this tier: no input found on which the implementation violates the property's oracle",
+                       "no_longer_checks": broken, "searched": "no input found on which the implementation violates the property's oracle; searched: " + "; ".join(searched),
                        "first_differences": [d for _, _, d in diffs[:10]], "lake_log_tail": pr["log"][-3000:] if not pr["ok"] else ""}
             violations.append((write_replay(pid, "unproved", payload), " no-failing-input-found"))
 
